@@ -870,17 +870,19 @@ fn check_lazy_seeks(ctx: &mut Ctx, opt: Opt, l: &(Vec<u32>, Vec<u32>), targets: 
     ctx.report.case(&format!("lazy-seeks|{}|{}|{}|{sorted}", opt.name(), l.0.len(), targets.len()), !l.0.is_empty() && !targets.is_empty());
     ctx.report.count("lazy-seeks");
     let tfs: Vec<u32> = if opt == Opt::Basic { vec![1; l.0.len()] } else { l.1.clone() };
-    let r = catch_unwind(AssertUnwindSafe(|| -> Result<(Vec<u8>, Vec<u32>), String> {
+    let r = catch_unwind(AssertUnwindSafe(|| -> Result<(Vec<u8>, Vec<u32>, Vec<u32>), String> {
         let bytes = real_postings_bytes(opt, &l.0, &tfs);
         let mut cur = tantivy::verif::c07_open_block_postings(l.0.len() as u32, bytes.clone(), opt.real(), opt.real()).map_err(|e| e.to_string())?;
         let mut out = vec![];
+        let mut out_tf = vec![];
         for &t in targets {
             let idx = cur.seek(t);
             out.push(cur.doc(idx));
+            out_tf.push(if cur.doc(idx) == tantivy::TERMINATED { 0 } else { cur.freq(idx) });
         }
-        Ok((bytes, out))
+        Ok((bytes, out, out_tf))
     }));
-    let (bytes, out) = match r {
+    let (bytes, out, out_tf) = match r {
         Ok(Ok(x)) => x,
         Ok(Err(e)) => { ctx.report.violation("oracle", "C07:read-error", format!("lazy-seeks: {e}"), case); return; }
         Err(p) => { ctx.report.violation("oracle", "C07:panic", format!("lazy-seeks ({} docs): {}", l.0.len(), panic_msg(p)), case); return; }
@@ -890,6 +892,24 @@ fn check_lazy_seeks(ctx: &mut Ctx, opt: Opt, l: &(Vec<u32>, Vec<u32>), targets: 
         if out != want {
             let i = out.iter().zip(&want).position(|(x, y)| x != y).unwrap_or(0);
             ctx.report.violation("oracle", "C07:block-seek", format!("{}: BlockSegmentPostings::seek program on a {}-doc list: seek #{i} to {} landed on {:?}, first doc >= target is {:?}", opt.name(), l.0.len(), targets[i], out.get(i), want.get(i)), case.clone());
+        }
+    }
+    if opt != Opt::Basic {
+        // the frequency buffer at the returned index: the tf of the doc landed on
+        if sorted {
+            let want: Vec<u32> = targets.iter().map(|&t| l.0.iter().position(|&d| d >= t).map(|i| tfs[i]).unwrap_or(0)).collect();
+            if out_tf != want {
+                let i = out_tf.iter().zip(&want).position(|(x, y)| x != y).unwrap_or(0);
+                ctx.report.violation("oracle", "C07:block-seek-freq", format!("{}: seek #{i} to {} on a {}-doc list: freq(idx) = {:?}, the doc's term frequency is {:?}", opt.name(), targets[i], l.0.len(), out_tf.get(i), want.get(i)), case.clone());
+            }
+        }
+        if model {
+            let m = ctx.model.ask(&format!("C07 lazyseeks_tf {} {} {} {}", opt.name(), l.0.len(), hex(&bytes), crate::model::nat_list(targets)));
+            let real = crate::model::nat_list(&out_tf);
+            if m != real {
+                let sh = |s: &str| if s.len() > 120 { format!("{}…", &s[..120]) } else { s.to_string() };
+                ctx.report.violation("model", "C07:model-lazyseek", format!("{}: term frequencies after seeks on {} docs: real {} model {}", opt.name(), l.0.len(), sh(&real), sh(&m)), case.clone());
+            }
         }
     }
     if model {
